@@ -256,23 +256,52 @@ NeedsSave == pers /\ disk # SavedNow(nodes)
 (***************************************************************************)
 EJobs(seq) == [i \in 1..Len(seq) |-> [k |-> "E", m |-> seq[i]]]
 
-\* The application's event callback may call back into the gateway.  Modelled reaction: update_fw(node, f) for the node whose
-\* PRESENTATION is being announced (type and version alone, no image) - the event is raised after the handler's own state
-\* changes and nothing of the handler follows it, so the reaction applies to the handler's result.
-NoReact == [on |-> FALSE, n |-> 0, f |-> <<0, 0>>]
+\* set_child_value(n, c, t, v, ack=a) as a function of the tree: the tree afterwards, the command it hands to add_job (0 or 1),
+\* and whether the caller sees it refused.  v is a payload descriptor, t an integer (given as int or as numeric string - both
+\* mean the same value type)
+SetChildRes(nd, n, c, t, v, a) ==
+  IF ~IsKnown(nd, n, c)
+  THEN LET r == NeedKnown(nd, n, c) IN [nd |-> r.nd, em |-> r.em, exc |-> "none"]
+  ELSE LET h == [n |-> n, c |-> c, cmd |-> SET, ack |-> a, sub |-> t] IN
+       IF Sleeping(nd, n)
+       THEN \* desired value: must be deliverable as a valid set command later
+            IF /\ c \in DOMAIN nd[n].desired
+               /\ v.carr                         \* the wire format can carry it (no ';', no line break)
+               /\ Accept(nd[n].pfl, [h EXCEPT !.ack = 0], v)
+               /\ Accept(GwVer, [h EXCEPT !.ack = 0], v)
+            THEN [nd |-> [nd EXCEPT ![n].desired[c] = Put(@, t, v.tok)], em |-> <<>>, exc |-> "none"]
+            ELSE [nd |-> nd, em |-> <<>>, exc |-> "refused"]
+       ELSE IF v.carr /\ Accept(GwVer, h, v)
+            THEN [nd |-> nd, em |-> <<Cmd(n, c, SET, a, t, v.tok)>>, exc |-> "none"]
+            ELSE [nd |-> nd, em |-> <<>>, exc |-> "refused"]
+
+\* The application's event callback may call back into the gateway.  Two modelled reactions:
+\*   kind "fw"  - update_fw(node, f) for the node whose PRESENTATION is being announced (type and version alone, no image);
+\*   kind "set" - set_child_value(node, child, t, v, ack=a) for the node and child whose SET message is being announced (an
+\*                application answering a report with a command: a thermostat pushing its set point back, a scene controller).
+\* The event is raised after the handler's own state changes and nothing of the handler that touches the tree follows it, so
+\* the reaction applies to the handler's result (routing the handler's reply only appends to a hold queue and does not look at
+\* what the reaction changes: the two commute).  A command the reaction hands to add_job leaves BEFORE the handler's reply
+\* (asyncio) or joins the job queue (threaded); a refusal is raised inside the callback and swallowed by alert().
+NoReact == [on |-> FALSE, kind |-> "fw", n |-> 0, f |-> <<0, 0>>, t |-> 0, v |-> 0, a |-> 0]
 React(r, l, rx) ==
-  IF rx.on /\ r.cbs # <<>> /\ l.wf /\ l.h.cmd = PRES /\ rx.f \in r.ota.fw /\ rx.n \in DOMAIN r.nd
+  IF rx.on /\ rx.kind = "fw" /\ r.cbs # <<>> /\ l.wf /\ l.h.cmd = PRES /\ rx.f \in r.ota.fw /\ rx.n \in DOMAIN r.nd
   THEN [nd |-> [r.nd EXCEPT ![rx.n].reboot = TRUE],
         ota |-> [r.ota EXCEPT !.sess = [n \in DOMAIN r.ota.sess \cup {rx.n} |->
-                                          IF n = rx.n THEN [st |-> "requested", fw |-> rx.f] ELSE r.ota.sess[n]]]]
-  ELSE [nd |-> r.nd, ota |-> r.ota]
+                                          IF n = rx.n THEN [st |-> "requested", fw |-> rx.f] ELSE r.ota.sess[n]]],
+        em |-> <<>>]
+  ELSE IF rx.on /\ rx.kind = "set" /\ r.cbs # <<>> /\ l.wf /\ l.h.cmd = SET
+  THEN LET s == SetChildRes(r.nd, l.h.n, l.h.c, rx.t, rx.v, rx.a) IN [nd |-> s.nd, ota |-> r.ota, em |-> s.em]
+  ELSE [nd |-> r.nd, ota |-> r.ota, em |-> <<>>]
+\* what the reacting callback sees of its own set_child_value call
+ReactSetExc(nd, o, l, rx) == SetChildRes(HSet(nd, o, l).nd, l.h.n, l.h.c, rx.t, rx.v, rx.a).exc
 
 RecvAsyncR(l, ch, rx) ==
   /\ Flavour = "async"
   /\ ChoiceOk(nodes, issued, l, ch)
   /\ LET r == Logic(nodes, ota, l, ch, metric) IN
        /\ nodes' = React(r, l, rx).nd /\ ota' = React(r, l, rx).ota
-       /\ out' = r.jb \o r.em          \* add_job sends at once; the reply of logic() is sent last
+       /\ out' = React(r, l, rx).em \o r.jb \o r.em   \* add_job sends at once; the reply of logic() is sent last
        /\ cb' = r.cbs
   /\ issued' = issued \cup NewIssued(l, ch)
   /\ exc' = "none"
@@ -295,7 +324,7 @@ PumpR(ch, rx) ==
      ELSE /\ ChoiceOk(nodes, issued, j.l, ch)
           /\ LET r == Logic(nodes, ota, j.l, ch, metric) IN
                /\ nodes' = React(r, j.l, rx).nd /\ ota' = React(r, j.l, rx).ota
-               /\ jobs' = Tail(jobs) \o EJobs(r.jb)
+               /\ jobs' = Tail(jobs) \o EJobs(React(r, j.l, rx).em) \o EJobs(r.jb)
                /\ out' = r.em
                /\ cb' = r.cbs
           /\ issued' = issued \cup NewIssued(j.l, ch)
@@ -304,34 +333,14 @@ PumpR(ch, rx) ==
   /\ UNCHANGED <<metric, pers, disk>>
 Pump(ch) == PumpR(ch, NoReact)
 
-\* set_child_value(n, c, t, v, ack=a); v is a payload descriptor, t an integer
-\* (given as int or as numeric string - both mean the same value type)
+\* set_child_value(n, c, t, v, ack=a) called by the controller
 CSetChild(n, c, t, v, a) ==
   /\ cb' = <<>>
   /\ UNCHANGED <<ota, metric, pers, dirty, disk, issued>>
-  /\ IF ~IsKnown(nodes, n, c)
-     THEN LET r == NeedKnown(nodes, n, c) IN
-          /\ nodes' = r.nd /\ exc' = "none"
-          /\ IF Flavour = "sync" THEN jobs' = jobs \o EJobs(r.em) /\ out' = <<>>
-                                 ELSE jobs' = jobs /\ out' = r.em
-     ELSE LET h == [n |-> n, c |-> c, cmd |-> SET, ack |-> a, sub |-> t] IN
-          IF Sleeping(nodes, n)
-          THEN \* desired value: must be deliverable as a valid set command later
-               /\ out' = <<>> /\ jobs' = jobs
-               /\ IF /\ c \in DOMAIN nodes[n].desired
-                     /\ v.carr                         \* the wire format can carry it (no ';', no line break)
-                     /\ Accept(nodes[n].pfl, [h EXCEPT !.ack = 0], v)
-                     /\ Accept(GwVer, [h EXCEPT !.ack = 0], v)
-                  THEN /\ nodes' = [nodes EXCEPT ![n].desired[c] = Put(@, t, v.tok)]
-                       /\ exc' = "none"
-                  ELSE /\ nodes' = nodes /\ exc' = "refused"
-          ELSE /\ nodes' = nodes
-               /\ IF v.carr /\ Accept(GwVer, h, v)
-                  THEN /\ exc' = "none"
-                       /\ IF Flavour = "sync"
-                          THEN jobs' = Append(jobs, [k |-> "E", m |-> Cmd(n, c, SET, a, t, v.tok)]) /\ out' = <<>>
-                          ELSE jobs' = jobs /\ out' = <<Cmd(n, c, SET, a, t, v.tok)>>
-                  ELSE exc' = "refused" /\ jobs' = jobs /\ out' = <<>>
+  /\ LET r == SetChildRes(nodes, n, c, t, v, a) IN
+       /\ nodes' = r.nd /\ exc' = r.exc
+       /\ IF Flavour = "sync" THEN jobs' = jobs \o EJobs(r.em) /\ out' = <<>>
+                              ELSE jobs' = jobs /\ out' = r.em
 
 \* update_fw(nids, type, version, image?): f = <<type, version>>
 CUpdateFw(nids, f, withImage) ==
